@@ -264,10 +264,11 @@ def structify(ast, structs):
     """the same formula with the struct-typed variables read through their field: a -> a.value (text rendering only)"""
     if not structs:
         return ast
+    paths = structs if isinstance(structs, dict) else dict((v, 'value') for v in structs)
 
     def go(n):
-        if n[0] == 'var' and n[1] in structs:
-            return ['var', n[1] + '.value']
+        if n[0] == 'var' and n[1] in paths:
+            return ['var', n[1] + '.' + paths[n[1]]]
         return sg.with_children(n, [go(c) for c in sg.children(n)])
     return go(ast)
 
